@@ -130,6 +130,11 @@ func c11Gen(tier string, emit func(c11Case)) {
 	for _, pat := range []string{"/.a/{x}", "/.a[.b]", "/.{x}", "/a.b/{x}", "/a/{x}.b", "/.a.b/{x}.a", "/a[/.b]", "/..a/{x}"} {
 		emit(c11Case{Kind: "dotted", P: pat, L: 5})
 	}
+	// ... and in a literal head of two and three path nodes (request strings of up to 8 / 9 characters)
+	for _, pat := range []string{"/a/.b/{x}", "/a/b.a/{x}", "/a.b/a/{x}", "/a.b/a.b/{x}"} {
+		emit(c11Case{Kind: "dotted", P: pat, L: 6})
+	}
+	emit(c11Case{Kind: "dotted", P: "/a/b/.a/{x}", L: 7})
 	// StrictLastSlash together with the route cache: '/x' and '/x/' stay different paths whatever was requested before
 	for _, capN := range []int{1, 2, 8} {
 		emit(c11Case{Kind: "strict-cache", Strict: true, L: capN})
@@ -573,7 +578,7 @@ var c11Spec = fw.Spec[c11Case]{
 	ID:    "C11",
 	Level: "model_checking",
 	Rule: "complete enumeration: ALL strings of length <=L over {'/',' ','.','a','b',TAB} as registered path P and as request path Q - the full P x Q square in both StrictLastSlash modes (and again for all strings of <=3 characters over {'/','a',space,U+00A0,U+3000,U+0085,U+2003}, and for all strings of <=4 characters with StrictLastSlash applied through WithOptions after New()) (one evaluation = one GET and one HEAD lookup of Q on a router holding GET P; reach <=> Norm(Q)==Norm(P)); " +
-		"all G x P x Q over strings of length <=3 for group prefixes and all nested G1 x G2 x P over strings of length <=2; all raw paths of <=4 tokens over {/,a,b,%2F,%2f,%20,space,|,%7C}, each with four RequestURI values (absent, equal, stale prefix, *) under both UseEncodedPath settings (directly and handed on by a front router with HandleContext); 8 dynamic routes with dots in their literal text against all request strings of <=6 characters over {/,.,a,b,x}; all request histories of <=3 over 8 paths with and without trailing slashes on caching routers (capacity 1, 2, 8) in both StrictLastSlash modes; static, multi-segment and dynamic routes of every length 1..300 bytes under three methods with nine request variations each; InterceptAll(p) with the route registered as p for all strings p of length <=3, in every option order, against all requests of length <=2; non-trivial = a (P,Q) pair that must reach the route / an escaped path that differs from the decoded one",
+		"all G x P x Q over strings of length <=3 for group prefixes and all nested G1 x G2 x P over strings of length <=2; all raw paths of <=4 tokens over {/,a,b,%2F,%2f,%20,space,|,%7C}, each with four RequestURI values (absent, equal, stale prefix, *) under both UseEncodedPath settings (directly and handed on by a front router with HandleContext); 8 dynamic routes with dots in their literal text against all request strings of <=6 characters over {/,.,a,b,x} (and 5 routes with dots in a literal head of two or three path nodes against all strings of <=8 / 9 characters); all request histories of <=3 over 8 paths with and without trailing slashes on caching routers (capacity 1, 2, 8) in both StrictLastSlash modes; static, multi-segment and dynamic routes of every length 1..300 bytes under three methods with nine request variations each; InterceptAll(p) with the route registered as p for all strings p of length <=3, in every option order, against all requests of length <=2; non-trivial = a (P,Q) pair that must reach the route / an escaped path that differs from the decoded one",
 	Assume: []string{"alphabet of 6 characters; L=5 quick, 6 thorough", "net/url's EscapedPath is taken as the definition of 'the escaped path'"},
 	Bounds: func(tier string) map[string]any {
 		L := 5
